@@ -21,6 +21,8 @@ type Case struct {
 	Idx    int     `json:"idx"`
 	Pf     Profile `json:"profile"`
 	Hook   bool    `json:"hook"`            // PRNG sleeps at the relay hook points
+	Scn    string  `json:"scn,omitempty"`   // scenario forced for this case (a fixed share of every run), see Scenarios
+	Debug  bool    `json:"debug,omitempty"` // h2.Config.EnableDebugLogs (martian logging stays silenced)
 	Probe  string  `json:"probe,omitempty"` // one of Probes: a hand-written session instead of a generated one
 }
 
@@ -72,6 +74,7 @@ type Op struct {
 	WaitPP     bool     // client: wait for the PUSH_PROMISE announcing S first
 	WaitOpen   []uint32 // GOAWAY: wait until the peer has opened / promised all these streams
 	Inc        uint32   // OpWU increment
+	Edge     int      // >0: pad the field list so that the encoded block is (receiver's MAX_FRAME_SIZE - (Edge-1)) bytes long
 	Phase      int
 }
 
@@ -144,6 +147,9 @@ type Plan struct {
 	Phases     []*Phase
 	NStreams   int
 	SlowWriter bool // the relay's writer goroutines are slowed down at the beforeSend hook point
+	PipeCap    int  // capacity of the in-memory client connection (0 = 1 MiB)
+	SlowReader [2]bool // the endpoint's reader pauses before every frame (a destination that is slow to accept bytes)
+	Scn        string
 	NPush      int
 }
 
@@ -252,8 +258,15 @@ func dataSize(rng *rand.Rand) int {
 
 func pick(rng *rand.Rand, xs ...string) string { return xs[rng.Intn(len(xs))] }
 
+// Scenarios are forced, by case index, onto a fixed share of every run (the
+// remaining cases draw everything at random, which can produce the same shapes).
+var Scenarios = map[string][]string{
+	"C08": {"resplit", "slowdest", "connlimited", "bighdr", "earlygrant", "goaway", "", ""},
+	"C09": {"bidi", "raise-queued-end", "edge-size", "connlimited", "exact-heavy", "dup-settings", "earlygrant", ""},
+}
+
 // Gen draws a session plan. All choices come from rng.
-func Gen(rng *rand.Rand, pf Profile) *Plan {
+func Gen(rng *rand.Rand, pf Profile, scn string) *Plan {
 	c09 := pf.Prop == "C09"
 	p := &Plan{SegSeed: rng.Int63()}
 	if !c09 && rng.Intn(4) == 0 {
@@ -261,11 +274,26 @@ func Gen(rng *rand.Rand, pf Profile) *Plan {
 	}
 	p.SegC = pick(rng, "full", "full", "small", "byte", "mixed")
 	p.SegS = pick(rng, "full", "full", "small", "byte", "mixed")
-	p.SlowWriter = rng.Intn(6) == 0
+	p.Scn = scn
+	p.SlowWriter = rng.Intn(6) == 0 || scn == "slowdest"
 	nPh := 1 + rng.Intn(3)
 	K := 1 + rng.Intn(pf.MaxStreams)
 	if rng.Intn(3) == 0 && K > 2 {
 		K = 1 + rng.Intn(2)
+	}
+	// side: the receiver a scenario is about (its peer is the sender concerned)
+	side := rng.Intn(2)
+	switch scn {
+	case "bidi":
+		K, nPh = 1+rng.Intn(2), 1
+	case "backlog":
+		K, nPh = 1, 1
+	case "raise-queued-end":
+		K, nPh = 1+rng.Intn(2), 2
+	case "bighdr":
+		side = 0 // the client connection is the in-memory one: its capacity and read pace are ours
+		p.PipeCap = 4096
+		p.SlowReader[0] = true
 	}
 	p.NStreams = K
 
@@ -283,6 +311,30 @@ func Gen(rng *rand.Rand, pf Profile) *Plan {
 			// released while the sender is still sending on the stream (batches of released frames)
 			cls = pick(rng, "tiny", "tiny", "one")
 		}
+		switch scn {
+		case "connlimited", "backlog":
+			if e == side {
+				cls = "connlimited"
+			}
+		case "bidi":
+			cls = pick(rng, "tiny", "tiny", "one")
+		case "raise-queued-end":
+			if e == side {
+				cls = "tiny"
+			}
+		case "exact-heavy":
+			if e == side {
+				cls = "default"
+			}
+		case "bighdr":
+			if e != side {
+				cls = "auto" // the many small DATA frames toward the block sender keep flowing
+			}
+		case "earlygrant":
+			if e == 0 {
+				cls = pick(rng, "tiny", "tiny", "one", "default")
+			}
+		}
 		p.WinClass[e] = cls
 		p.Gran[e] = pick(rng, "1B", "small", "small", "frame", "frame", "huge")
 		if p.SlowWriter && !c09 {
@@ -295,7 +347,7 @@ func Gen(rng *rand.Rand, pf Profile) *Plan {
 	// MAX_FRAME_SIZE without draining first. C08's clauses do not depend on when the relay applies
 	// the new size, so this is sound for C08 (C09 keeps the drained rule for its frame-size clause).
 	resplit := -1
-	if !c09 && rng.Intn(8) == 0 {
+	if !c09 && (rng.Intn(8) == 0 || scn == "resplit") {
 		resplit = rng.Intn(2)
 		p.WinClass[resplit] = pick(rng, "default", "default", "connlimited")
 		nPh = 2 // everything is sent in phase 0; phase 1 only opens the windows after the lowering
